@@ -55,6 +55,7 @@ type Ctx struct {
 	specOrder []string
 	memSorts  map[string]string
 	funDecls  []string
+	constGlobalsUsed []string
 }
 
 func NewCtx(mode Mode, specs *SpecEnv) *Ctx {
@@ -668,6 +669,12 @@ func (c *Ctx) Prelude() string {
 	for _, d := range c.funDecls {
 		sb.WriteString(d + "\n")
 	}
+	for _, g := range c.constGlobalsUsed {
+		sb.WriteString(fmt.Sprintf("(declare-const %s Iface)\n(assert (not (= %s iface_nil)))\n", g, g))
+	}
+	if len(c.constGlobalsUsed) > 1 {
+		sb.WriteString("(assert (distinct " + strings.Join(c.constGlobalsUsed, " ") + "))\n")
+	}
 	sb.WriteString(specText)
 	for _, d := range c.decls {
 		sb.WriteString(d + "\n")
@@ -723,4 +730,18 @@ func (c *Ctx) readLeaf(mem MemFn, used *[]memUse, loc string, t types.Type) stri
 	}
 	return fmt.Sprintf("(ite ((_ is lelem) %s) (select (select %s (ebase %s)) (eidx %s)) (select %s %s))", loc,
 		use(c.arrKey(t), c.arrSort(t)), loc, loc, use(c.memKey(t), c.memSort(t)), loc)
+}
+
+// constGlobal: package-level error variables proved (syntactically, per run) to be assigned once in
+// the package initialiser are distinct non-nil constants.
+func (c *Ctx) constGlobal(name string) (string, bool) {
+	if c.specs == nil || c.specs.constGlobals == nil || !c.specs.constGlobals[name] {
+		return "", false
+	}
+	n := "gerr_" + sanitize(name)
+	if !c.declared[n] {
+		c.declared[n] = true
+		c.constGlobalsUsed = append(c.constGlobalsUsed, n)
+	}
+	return n, true
 }
